@@ -539,20 +539,36 @@ def Linked (s : State K) (c : Nat) : Prop :=
       om.view = ⟨oc.view.buf, oc.view.off + (lens.take k).sum, om.view.len⟩
 
 theorem eff_linkColl {s s' : State K} (hwf : WF s) {ms : List Nat} (hnd : ms.Nodup) {g : Nat}
-    {dt : Option DType} (h : linkColl s ms g dt = .ok s') :
+    {src : Option (View × DType)} {dt : Option DType} (h : linkFrom s ms g src dt = .ok s') :
     Eff s s' (fun _ _ => False) (fun i => i ∈ ms) False ∧
     s'.objs.length = s.objs.length + 1 ∧ Linked s' s.objs.length ∧
     ∃ oc : Obj, s'.objs[s.objs.length]? = some oc ∧ oc.cls = .coll ∧ oc.members = ms ∧
-      oc.grid = g ∧ oc.view.buf = s.store.next := by
-  unfold linkColl at h
+      oc.grid = g ∧ oc.view.buf = s.store.next ∧
+      ∃ os : List Obj, getObjs s ms = .ok os ∧ os ≠ [] ∧ oc.ncomp = (os.map (·.ncomp)).sum ∧
+        oc.view.len = (os.map (·.view.len)).sum ∧
+        ∀ o ∈ os, o.grid = g ∧ o.cls ≠ .coll ∧ o.cls ≠ .raw := by
+  unfold linkFrom at h
   split at h
   · cases h
   rename_i os hget
   obtain ⟨hl, hk⟩ := getObjs_ok hget
-  simp only [Except.ok.injEq] at h
+  split at h
+  · cases h
+  rename_i hne
+  split at h
+  · cases h
+  rename_i hgrid
+  split at h
+  · cases h
+  rename_i hnest
   -- abbreviations
-  generalize hcells : os.flatMap (fun o => s.store.readView o.view) = cells at h
-  generalize hdt : dt.getD _ = dtOut at h
+  generalize hcells : collCells s os src = cells at h
+  generalize hdt : collDType s os src dt = dtOut at h
+  simp only at h
+  split at h
+  · cases h
+  rename_i hF5
+  simp only [Except.ok.injEq] at h
   generalize hc : ({ cls := Cls.coll, grid := g, ncomp := (os.map (·.ncomp)).sum,
                      view := ⟨0, 0, 0⟩, members := ms } : Obj) = c at h
   have e1 := eff_allocObj hwf cells dtOut c
@@ -590,17 +606,9 @@ theorem eff_linkColl {s s' : State K} (hwf : WF s) {ms : List Nat} (hnd : ms.Nod
     have : lens[k] = o.view.len := by
       have := List.getElem?_eq_getElem hk''; rw [h3] at this; exact (Option.some.inj this).symm
     simp [this]
-  -- the gathered data has one block per member
+  -- the slices of the members tile the new array
   have F5 : cells.length = lens.sum := by
-    rw [← hcells, List.length_flatMap, hlens]
-    congr 1
-    apply List.map_congr_left
-    intro o ho
-    obtain ⟨k, hko⟩ := List.mem_iff_getElem?.mp ho
-    have hk' : k < ms.length := by rw [← hl]; exact lt_length_of_getElem? hko
-    obtain ⟨o', h1, h2, _⟩ := hmem k hk'
-    rw [hko] at h1; cases h1
-    exact Store.length_readView _ _ (hwf _ _ h2).2
+    simpa using hF5
   have hnew : s'.objs[s.objs.length]? =
       some { c with view := ⟨s.store.next, 0, cells.length⟩ } := by
     rw [F3 _ (fun hi => Nat.lt_irrefl _ (hlt _ hi)), hs1]; exact allocObj_new _ _ _ _
@@ -708,7 +716,13 @@ theorem eff_linkColl {s s' : State K} (hwf : WF s) {ms : List Nat} (hnd : ms.Nod
       obtain ⟨o, _, g1, h4⟩ := F4 k hk'
       rw [hm] at h4
       exact ⟨_, h4, g1, by simp⟩
-  · exact ⟨_, hnew, by rw [← hc], by rw [← hc], by rw [← hc], rfl⟩
+  · refine ⟨_, hnew, by rw [← hc], by rw [← hc], by rw [← hc], rfl, os, hget, ?_, by rw [← hc],
+      by simp only; rw [F5], ?_⟩
+    · intro e; subst e; simp at hne
+    · intro o ho
+      simp only [List.any_eq_true, bne_iff_ne, ne_eq, not_exists, not_and, Decidable.not_not,
+        Bool.or_eq_true, beq_iff_eq] at hgrid hnest
+      exact ⟨hgrid o ho, fun e => hnest o ho (Or.inl e), fun e => hnest o ho (Or.inr e)⟩
 
 /-! ### composite constructions -/
 
@@ -722,8 +736,9 @@ theorem mem_range'_ge {a n i : Nat} (h : i ∈ List.range' a n) : a ≤ i := by
 
 /-- `[make(f) for f in fields]` followed by `FieldCollection(those, copy_fields=False)` -/
 theorem eff_mapEach_link {s s' : State K} (hwf : WF s)
-    (mk : Store K → Obj → List (Option K) × DType) (os : List Obj) {g : Nat} {dt : Option DType}
-    (h : linkColl (mapEach mk s os).1 (mapEach mk s os).2 g dt = .ok s') :
+    (mk : Store K → Obj → List (Option K) × DType) (os : List Obj) {g : Nat}
+    {src : Option (View × DType)} {dt : Option DType}
+    (h : linkFrom (mapEach mk s os).1 (mapEach mk s os).2 g src dt = .ok s') :
     Eff s s' (fun _ _ => False) (fun _ => False) False ∧ ResultOK s s' := by
   obtain ⟨e1, h2, h3⟩ := eff_mapEach mk os s hwf
   have hnd : (mapEach mk s os).2.Nodup := by rw [h2]; exact List.nodup_range'
@@ -818,6 +833,199 @@ theorem eff_write_result {s s1 : State K} (hwf : WF s)
     · omega
   · intro oc hoc hcls
     exact r1.2 oc hoc hcls
+
+/-! ### shape invariant -/
+
+/-- the padded array of a field object consists of `ncomp` blocks of one padded grid each -/
+def Shaped (G : List Grid) (o : Obj) : Prop :=
+  o.cls = .raw ∨ ∃ g : Grid, G[o.grid]? = some g ∧ o.view.len = o.ncomp * g.mask.length
+
+def SameShape (o o' : Obj) : Prop :=
+  o'.cls = o.cls ∧ o'.grid = o.grid ∧ o'.ncomp = o.ncomp ∧ o'.view.len = o.view.len
+
+theorem Shaped.of_same {G : List Grid} {o o' : Obj} (h : Shaped G o) (e : SameShape o o') :
+    Shaped G o' := by
+  obtain ⟨e1, e2, e3, e4⟩ := e
+  rcases h with h | ⟨g, h1, h2⟩
+  · exact Or.inl (by rw [e1, h])
+  · exact Or.inr ⟨g, by rw [e2, h1], by rw [e3, e4, h2]⟩
+
+/-- the members of object `oc` (a collection) are data fields on the grid of `oc` -/
+def MembersOK (s : State K) (oc : Obj) : Prop :=
+  ∀ m ∈ oc.members, ∃ om : Obj, s.objs[m]? = some om ∧ om.grid = oc.grid ∧ om.cls ≠ .coll ∧
+    om.cls ≠ .raw
+
+/-- invariant of all reachable states: allocation invariant, shapes, collection members -/
+structure Inv (G : List Grid) (s : State K) : Prop where
+  wf : WF s
+  shaped : ∀ (i : Nat) (o : Obj), s.objs[i]? = some o → Shaped G o
+  coll : ∀ (c : Nat) (oc : Obj), s.objs[c]? = some oc → MembersOK s oc
+
+theorem inv_empty (G : List Grid) : Inv G ({} : State K) :=
+  ⟨wf_empty, fun i o h => by simp at h, fun c oc h => by simp at h⟩
+
+/-- the objects created by a state change are well shaped -/
+def NewOK (G : List Grid) (s s' : State K) : Prop :=
+  ∀ (i : Nat) (o' : Obj), s.objs.length ≤ i → s'.objs[i]? = some o' → Shaped G o' ∧ MembersOK s' o'
+
+theorem Eff.sameShape {s s' : State K} {W : Nat → Nat → Prop} {M : Nat → Prop} {S : Prop}
+    (e : Eff s s' W M S) {i : Nat} {o : Obj} (ho : s.objs[i]? = some o) :
+    ∃ o' : Obj, s'.objs[i]? = some o' ∧ SameShape o o' ∧ o'.members = o.members := by
+  obtain ⟨o', h1, h2⟩ := e.old i o ho
+  refine ⟨o', h1, ?_⟩
+  rcases h2 with rfl | ⟨_, h3, h4, _⟩
+  · exact ⟨⟨rfl, rfl, rfl, rfl⟩, rfl⟩
+  · rw [h3]; exact ⟨⟨rfl, rfl, rfl, by rw [h3] at h4; exact h4⟩, rfl⟩
+
+theorem MembersOK.of_eff {s s' : State K} {W : Nat → Nat → Prop} {M : Nat → Prop} {S : Prop}
+    (e : Eff s s' W M S) {oc oc' : Obj} (h : MembersOK s oc) (hm : oc'.members = oc.members)
+    (hg : oc'.grid = oc.grid) : MembersOK s' oc' := by
+  intro m hmem
+  rw [hm] at hmem
+  obtain ⟨om, h1, h2, h3, h4⟩ := h m hmem
+  obtain ⟨om', g1, ⟨c1, c2, _, _⟩, _⟩ := e.sameShape h1
+  exact ⟨om', g1, by rw [c2, h2, hg], by rw [c1]; exact h3, by rw [c1]; exact h4⟩
+
+theorem inv_of_eff {G : List Grid} {s s' : State K} {W : Nat → Nat → Prop} {M : Nat → Prop}
+    {S : Prop} (hi : Inv G s) (e : Eff s s' W M S) (hn : NewOK G s s') : Inv G s' where
+  wf := e.wf
+  shaped := fun i o' ho' => by
+    rcases Nat.lt_or_ge i s.objs.length with hlt | hge
+    · obtain ⟨o, ho⟩ : ∃ o, s.objs[i]? = some o := ⟨_, List.getElem?_eq_getElem hlt⟩
+      obtain ⟨o'', h1, h2, _⟩ := e.sameShape ho
+      rw [ho'] at h1; cases h1
+      exact (hi.shaped i o ho).of_same h2
+    · exact (hn i o' hge ho').1
+  coll := fun c oc' hoc' => by
+    rcases Nat.lt_or_ge c s.objs.length with hlt | hge
+    · obtain ⟨oc, hoc⟩ : ∃ o, s.objs[c]? = some o := ⟨_, List.getElem?_eq_getElem hlt⟩
+      obtain ⟨o'', h1, h2, h3⟩ := e.sameShape hoc
+      rw [hoc'] at h1; cases h1
+      exact (hi.coll c oc hoc).of_eff e h3 h2.2.1
+    · exact (hn c oc' hge hoc').2
+
+theorem NewOK.trans {G : List Grid} {s s₁ s₂ : State K} {W : Nat → Nat → Prop} {M : Nat → Prop}
+    {S : Prop} (h1 : NewOK G s s₁) (e2 : Eff s₁ s₂ W M S) (h2 : NewOK G s₁ s₂) :
+    NewOK G s s₂ := by
+  intro i o₂ hi ho₂
+  rcases Nat.lt_or_ge i s₁.objs.length with hlt | hge
+  · obtain ⟨o₁, ho₁⟩ : ∃ o, s₁.objs[i]? = some o := ⟨_, List.getElem?_eq_getElem hlt⟩
+    obtain ⟨o', g1, g2, g3⟩ := e2.sameShape ho₁
+    rw [ho₂] at g1; cases g1
+    obtain ⟨a, b⟩ := h1 i o₁ hi ho₁
+    exact ⟨a.of_same g2, b.of_eff e2 g3 g2.2.1⟩
+  · exact h2 i o₂ hge ho₂
+
+theorem NewOK.none {G : List Grid} {s s' : State K} (h : s'.objs.length = s.objs.length) :
+    NewOK G s s' := by
+  intro i o' hi ho'
+  have := lt_length_of_getElem? ho'
+  omega
+
+theorem newOK_allocObj {G : List Grid} (s : State K) (cells : List (Option K)) (dt : DType)
+    (o : Obj) (hm : o.members = [])
+    (hs : o.cls = .raw ∨ ∃ g : Grid, G[o.grid]? = some g ∧ cells.length = o.ncomp * g.mask.length) :
+    NewOK G s (s.allocObj cells dt o) := by
+  intro i o' hi ho'
+  simp only [State.allocObj] at ho'
+  obtain ⟨_, rfl⟩ := getElem?_append_singleton_ge hi ho'
+  refine ⟨?_, ?_⟩
+  · rcases hs with h | ⟨g, h1, h2⟩
+    · exact Or.inl h
+    · exact Or.inr ⟨g, h1, h2⟩
+  · intro m hmem; simp only [hm] at hmem; cases hmem
+
+theorem newOK_pushObj {G : List Grid} (s : State K) (o : Obj) (hm : o.members = [])
+    (hs : Shaped G o) : NewOK G s (s.pushObj o) := by
+  intro i o' hi ho'
+  simp only [State.pushObj] at ho'
+  obtain ⟨_, rfl⟩ := getElem?_append_singleton_ge hi ho'
+  exact ⟨hs, by intro m hmem; simp only [hm] at hmem; cases hmem⟩
+
+theorem newOK_mapEach {G : List Grid} (mk : Store K → Obj → List (Option K) × DType)
+    (hmk : ∀ (st : Store K) (o : Obj), o.view.off + o.view.len ≤ st.size o.view.buf →
+      (mk st o).1.length = o.view.len) :
+    ∀ (os : List Obj) (s : State K), WF s →
+      (∀ o ∈ os, Shaped G o ∧ o.view.buf < s.store.next ∧
+        o.view.off + o.view.len ≤ s.store.size o.view.buf) →
+      NewOK G s (mapEach mk s os).1 := by
+  intro os
+  induction os with
+  | nil => intro s _ _; exact NewOK.none rfl
+  | cons o os ih =>
+    intro s hwf hos
+    obtain ⟨hsh, hb, hsz⟩ := hos o List.mem_cons_self
+    have e1 := eff_allocObj hwf (mk s.store o).1 (mk s.store o).2 { o with members := [] }
+    have n1 : NewOK G s (s.allocObj (mk s.store o).1 (mk s.store o).2 { o with members := [] }) := by
+      refine newOK_allocObj s _ _ _ rfl ?_
+      rcases hsh with h | ⟨g, h1, h2⟩
+      · exact Or.inl h
+      · exact Or.inr ⟨g, h1, by rw [hmk _ _ hsz]; exact h2⟩
+    have hos' : ∀ o' ∈ os, Shaped G o' ∧
+        o'.view.buf < (s.allocObj (mk s.store o).1 (mk s.store o).2 { o with members := [] }).store.next ∧
+        o'.view.off + o'.view.len ≤
+          (s.allocObj (mk s.store o).1 (mk s.store o).2 { o with members := [] }).store.size o'.view.buf := by
+      intro o' ho'
+      obtain ⟨a, b, c⟩ := hos o' (List.mem_cons_of_mem _ ho')
+      refine ⟨a, Nat.lt_of_lt_of_le b e1.next_le, ?_⟩
+      rw [e1.size_eq _ b]; exact c
+    obtain ⟨e2, _, _⟩ := eff_mapEach mk os _ e1.wf
+    exact n1.trans e2 (ih _ e1.wf hos')
+
+theorem sum_map_mul (l : List Obj) (n : Nat) (h : ∀ o ∈ l, o.view.len = o.ncomp * n) :
+    (l.map (·.view.len)).sum = (l.map (·.ncomp)).sum * n := by
+  induction l with
+  | nil => simp
+  | cons x xs ih =>
+    simp only [List.map_cons, List.sum_cons, Nat.add_mul]
+    rw [ih (fun o ho => h o (List.mem_cons_of_mem _ ho)), h x List.mem_cons_self]
+
+theorem newOK_linkColl {G : List Grid} {s s' : State K} (hi : Inv G s) {ms : List Nat}
+    (hnd : ms.Nodup) {g : Nat} {src : Option (View × DType)} {dt : Option DType}
+    (h : linkFrom s ms g src dt = .ok s') : NewOK G s s' := by
+  obtain ⟨e, hlen, _, oc, hoc, hcls, hmem, hg, _, os, hget, hne, hnc, hvl, hos⟩ :=
+    eff_linkColl hi.wf hnd h
+  obtain ⟨hl, hk⟩ := getObjs_ok hget
+  intro i o' hi' ho'
+  have hi2 : i = s.objs.length := by have := lt_length_of_getElem? ho'; omega
+  subst hi2
+  rw [hoc] at ho'; cases ho'
+  -- every gathered object is an object of `s`
+  have hobj : ∀ o ∈ os, ∃ m, m ∈ ms ∧ s.objs[m]? = some o := by
+    intro o ho
+    obtain ⟨k, hko⟩ := List.mem_iff_getElem?.mp ho
+    have hk' : k < ms.length := by rw [← hl]; exact lt_length_of_getElem? hko
+    obtain ⟨o2, h1, h2⟩ := hk k ms[k] (List.getElem?_eq_getElem hk')
+    rw [hko] at h1; cases h1
+    exact ⟨ms[k], List.getElem_mem hk', h2⟩
+  refine ⟨Or.inr ?_, ?_⟩
+  · -- shape of the collection
+    obtain ⟨o0, ho0⟩ : ∃ o0, o0 ∈ os := by
+      cases os with
+      | nil => exact absurd rfl hne
+      | cons x xs => exact ⟨x, List.mem_cons_self⟩
+    obtain ⟨m0, _, hm0⟩ := hobj o0 ho0
+    obtain ⟨g0, hnc0, hnr0⟩ := hos o0 ho0
+    rcases hi.shaped m0 o0 hm0 with hr | ⟨gr, hgr, _⟩
+    · exact absurd hr hnr0
+    refine ⟨gr, by rw [hg, ← g0]; exact hgr, ?_⟩
+    rw [hvl, hnc]
+    apply sum_map_mul
+    intro o ho
+    obtain ⟨m, _, hm⟩ := hobj o ho
+    obtain ⟨g1, _, hnr⟩ := hos o ho
+    rcases hi.shaped m o hm with hr | ⟨gr', hgr', hlen'⟩
+    · exact absurd hr hnr
+    · rw [g1, ← g0, hgr] at hgr'; cases hgr'; exact hlen'
+  · -- members
+    intro m hm
+    rw [hmem] at hm
+    obtain ⟨k, hk', rfl⟩ := List.getElem_of_mem hm
+    obtain ⟨o, h1, h2⟩ := hk k ms[k] (List.getElem?_eq_getElem hk')
+    have ho : o ∈ os := List.mem_iff_getElem?.mpr ⟨k, h1⟩
+    obtain ⟨g1, hnc1, hnr1⟩ := hos o ho
+    obtain ⟨o2, c1, ⟨d1, d2, _, _⟩, _⟩ := e.sameShape h2
+    exact ⟨o2, c1, by rw [d2, g1, hg], by rw [d1]; exact hnc1, by rw [d1]; exact hnr1⟩
 
 /-! ### the operations -/
 
@@ -984,6 +1192,23 @@ theorem step_spec (G : List Grid) {s s' : State K} (hwf : WF s) {op : Op K}
     · cases h
     obtain ⟨e, r, _⟩ := eff_copyAny hwf h
     exact ⟨e.mono (fun _ _ _ f => f.elim) (fun _ _ f => f.elim) (fun f => f.elim), Or.inr r⟩
+  | deepcopy hd =>
+    simp only [step, deepcopy] at h
+    split at h
+    · cases h
+    rename_i o ho
+    split at h
+    · cases h
+    split at h
+    · split at h
+      · cases h
+      · obtain ⟨e, r⟩ := eff_mapEach_link hwf _ _ h
+        exact ⟨e.mono (fun _ _ _ f => f.elim) (fun _ _ f => f.elim) (fun f => f.elim), Or.inr r⟩
+    · rename_i hcoll
+      cases h
+      have hc : o.cls ≠ .coll := by intro e; simp [e] at hcoll
+      exact ⟨(eff_allocObj hwf _ _ _).mono (fun _ _ _ f => f.elim) (fun _ _ f => f.elim)
+        (fun f => f.elim), Or.inr (ResultOK.of_field _ _ _ hc)⟩
   | neg hd =>
     simp only [step, negate] at h
     split at h
@@ -1070,6 +1295,299 @@ theorem step_spec (G : List Grid) {s s' : State K} (hwf : WF s) {op : Op K}
       · cases h
       obtain ⟨e, r⟩ := eff_copyThenWrite hwf h
       exact ⟨e.mono (fun _ _ _ f => f.elim) (fun _ _ f => f.elim) (fun f => f.elim), Or.inr r⟩
+
+theorem inplace_eq' {G : List Grid} {s s' : State K} {bop : BinOp} {a : Nat} {b : Operand K}
+    (hs : step G s (.inplace bop a b) = .ok s') :
+    ∃ (oa : Obj) (g : Nat → Option K → Option K), s.objs[a]? = some oa ∧
+      s' = s.writeSel oa.view (validSel G oa) g := by
+  simp only [step, inplace] at hs
+  split at hs
+  · cases hs
+  rename_i oa hoa
+  split at hs
+  · cases hs
+  split at hs
+  · split at hs
+    · cases hs
+    · cases hs; exact ⟨oa, _, getObj_ok hoa, rfl⟩
+  · split at hs
+    · cases hs
+    split at hs
+    · cases hs
+    split at hs
+    · cases hs
+    split at hs
+    · cases hs
+    split at hs
+    · cases hs
+    cases hs; exact ⟨oa, _, getObj_ok hoa, rfl⟩
+
+/-! ### every operation preserves the invariant -/
+
+theorem hmk_copy (st : Store K) (o : Obj) (h : o.view.off + o.view.len ≤ st.size o.view.buf) :
+    (mkCopy st o).1.length = o.view.len := Store.length_readView st o.view h
+
+omit [Add K] [Sub K] [Mul K] [Div K] [NatCast K] in
+theorem hmk_neg (G : List Grid) (st : Store K) (o : Obj)
+    (h : o.view.off + o.view.len ≤ st.size o.view.buf) : (mkNeg G st o).1.length = o.view.len := by
+  simp only [mkNeg, List.length_mapIdx]; exact Store.length_readView st o.view h
+
+theorem newOK_mapEach_link {G : List Grid} {s s' : State K} (hi : Inv G s)
+    (mk : Store K → Obj → List (Option K) × DType)
+    (hmk : ∀ (st : Store K) (o : Obj), o.view.off + o.view.len ≤ st.size o.view.buf →
+      (mk st o).1.length = o.view.len)
+    (os : List Obj) (hos : ∀ o ∈ os, ∃ m : Nat, s.objs[m]? = some o) {g : Nat}
+    {src : Option (View × DType)} {dt : Option DType}
+    (h : linkFrom (mapEach mk s os).1 (mapEach mk s os).2 g src dt = .ok s') : NewOK G s s' := by
+  have n1 : NewOK G s (mapEach mk s os).1 := by
+    refine newOK_mapEach mk hmk os s hi.wf ?_
+    intro o ho
+    obtain ⟨m, hm⟩ := hos o ho
+    exact ⟨hi.shaped m o hm, (hi.wf m o hm).1, (hi.wf m o hm).2⟩
+  obtain ⟨e1, h2, _⟩ := eff_mapEach mk os s hi.wf
+  have hi1 := inv_of_eff hi e1 n1
+  have hnd : (mapEach mk s os).2.Nodup := by rw [h2]; exact List.nodup_range'
+  obtain ⟨e2, _⟩ := eff_linkColl e1.wf hnd h
+  exact n1.trans e2 (newOK_linkColl hi1 hnd h)
+
+theorem getObjs_mem {s : State K} {hs : List Nat} {os : List Obj} (h : getObjs s hs = .ok os) :
+    ∀ o ∈ os, ∃ m : Nat, s.objs[m]? = some o := by
+  obtain ⟨hl, hk⟩ := getObjs_ok h
+  intro o ho
+  obtain ⟨k, hko⟩ := List.mem_iff_getElem?.mp ho
+  have hk' : k < hs.length := by rw [← hl]; exact lt_length_of_getElem? hko
+  obtain ⟨o2, h1, h2⟩ := hk k hs[k] (List.getElem?_eq_getElem hk')
+  rw [hko] at h1; cases h1
+  exact ⟨hs[k], h2⟩
+
+theorem newOK_mkColl {G : List Grid} {s s' : State K} (hi : Inv G s) {hs : List Nat} {cp : Bool}
+    {dt : Option DType} (h : mkColl s hs cp dt = .ok s') : NewOK G s s' := by
+  unfold mkColl at h
+  split at h
+  · cases h
+  · cases h
+  · rename_i hd tl os hget
+    simp only at h
+    split at h
+    · cases h
+    split at h
+    · cases h
+    split at h
+    · cases h
+    split at h
+    · exact newOK_mapEach_link hi mkCopy hmk_copy os (getObjs_mem hget) h
+    · rename_i hcp
+      have hcp' : cp = false ∧ (hd :: tl).Nodup := by
+        simp only [Bool.or_eq_true, Bool.not_eq_true', decide_eq_false_iff_not, not_or,
+          Bool.not_eq_true, Decidable.not_not] at hcp
+        exact hcp
+      exact newOK_linkColl hi hcp'.2 h
+
+theorem newOK_copyAny {G : List Grid} {s s' : State K} (hi : Inv G s) {o : Obj} {m : Nat}
+    (ho : s.objs[m]? = some o) {dt : Option DType} (h : copyAny s o dt = .ok s') :
+    NewOK G s s' := by
+  unfold copyAny at h
+  split at h
+  · cases h
+  · unfold copyColl at h
+    split at h
+    · cases h
+    · rename_i os hget
+      exact newOK_mapEach_link hi mkCopy hmk_copy os (getObjs_mem hget) h
+  · cases h
+    refine newOK_allocObj s _ _ _ rfl ?_
+    rcases hi.shaped m o ho with hr | ⟨g, h1, h2⟩
+    · exact Or.inl hr
+    · exact Or.inr ⟨g, h1, by rw [Store.length_readView _ _ (hi.wf m o ho).2]; exact h2⟩
+
+theorem newOK_copyThenWrite {G : List Grid} {s s' : State K} (hi : Inv G s) {src : Obj} {m : Nat}
+    (ho : s.objs[m]? = some src) {dt : Option DType}
+    {g : State K → Obj → Nat → Option K → Option K} (h : copyThenWrite G s src dt g = .ok s') :
+    NewOK G s s' := by
+  unfold copyThenWrite at h
+  split at h
+  · cases h
+  rename_i s1 hc
+  split at h
+  · cases h
+  cases h
+  obtain ⟨e1, _, _⟩ := eff_copyAny hi.wf hc
+  exact (newOK_copyAny hi ho hc).trans (eff_writeSel e1.wf _ _ _) (NewOK.none rfl)
+
+theorem binopSrc_mem {s : State K} {op : BinOp} {oa ob osrc : Obj}
+    (h : binopSrc s op oa ob = .ok osrc) : osrc = oa ∨ osrc = ob := by
+  unfold binopSrc at h
+  split at h
+  · split at h
+    · cases h
+    split at h
+    · cases h
+    · cases h; exact Or.inl rfl
+  split at h
+  · split at h
+    · cases h
+    · cases h; exact Or.inr rfl
+  · split at h
+    · cases h
+    · cases h; exact Or.inl rfl
+
+/-- the objects created by any operation are well shaped -/
+theorem newOK_step (G : List Grid) {s s' : State K} (hi : Inv G s) {op : Op K}
+    (h : step G s op = .ok s') : NewOK G s s' := by
+  cases op with
+  | mkField cls g dt cplx init =>
+    simp only [step, mkField] at h
+    split at h
+    · cases h
+    rename_i gr hgr
+    split at h
+    · cases h
+    split at h <;> cases h <;>
+      exact newOK_allocObj s _ _ _ rfl (Or.inr ⟨gr, hgr, by simp⟩)
+  | writeData hd vals =>
+    simp only [step] at h
+    split at h
+    · cases h
+    cases h; exact NewOK.none rfl
+  | writeFull hd vals =>
+    simp only [step] at h
+    split at h
+    · cases h
+    cases h; exact NewOK.none rfl
+  | writeCell hd p v =>
+    simp only [step] at h
+    split at h
+    · cases h
+    cases h; exact NewOK.none rfl
+  | setGhosts hd vals =>
+    simp only [step] at h
+    split at h
+    · cases h
+    cases h; exact NewOK.none rfl
+  | component hd c =>
+    simp only [step] at h
+    split at h
+    · cases h
+    rename_i o ho
+    split at h
+    · rename_i hcond
+      cases h
+      simp only [Bool.and_eq_true, decide_eq_true_eq, Bool.or_eq_true, beq_iff_eq] at hcond
+      refine newOK_pushObj s _ rfl ?_
+      rcases hi.shaped hd o (getObj_ok ho) with hr | ⟨g, h1, h2⟩
+      · rcases hcond.1 with e | e <;> rw [e] at hr <;> cases hr
+      · refine Or.inr ⟨g, h1, ?_⟩
+        simp only [compObj, Nat.one_mul]
+        rw [h2, Nat.mul_div_cancel_left _ (by omega : 0 < o.ncomp)]
+    · cases h
+  | mkColl hs cp dt =>
+    simp only [step] at h
+    exact newOK_mkColl hi h
+  | slice c idx =>
+    simp only [step] at h
+    split at h
+    · cases h
+    split at h
+    · exact newOK_mkColl hi h
+    · cases h
+  | append c hs =>
+    simp only [step] at h
+    split at h
+    · cases h
+    · cases h
+    · split at h
+      · exact newOK_mkColl hi h
+      · cases h
+  | copy hd dt =>
+    simp only [step] at h
+    split at h
+    · cases h
+    rename_i o ho
+    exact newOK_copyAny hi (getObj_ok ho) h
+  | deepcopy hd =>
+    simp only [step, deepcopy] at h
+    split at h
+    · cases h
+    rename_i o ho
+    split at h
+    · cases h
+    split at h
+    · split at h
+      · cases h
+      · rename_i os hget
+        exact newOK_mapEach_link hi mkCopy hmk_copy os (getObjs_mem hget) h
+    · cases h
+      refine newOK_allocObj s _ _ _ rfl ?_
+      rcases hi.shaped hd o (getObj_ok ho) with hr | ⟨g, h1, h2⟩
+      · exact Or.inl hr
+      · exact Or.inr ⟨g, h1, by
+          rw [Store.length_readView _ _ (hi.wf hd o (getObj_ok ho)).2]; exact h2⟩
+  | neg hd =>
+    simp only [step, negate] at h
+    split at h
+    · cases h
+    rename_i o ho
+    split at h
+    · cases h
+    split at h
+    · split at h
+      · cases h
+      · rename_i os hget
+        exact newOK_mapEach_link hi (mkNeg G) (hmk_neg G) os (getObjs_mem hget) h
+    · cases h
+      refine newOK_allocObj s _ _ _ rfl ?_
+      rcases hi.shaped hd o (getObj_ok ho) with hr | ⟨g, h1, h2⟩
+      · exact Or.inl hr
+      · exact Or.inr ⟨g, h1, by rw [hmk_neg G _ _ (hi.wf hd o (getObj_ok ho)).2]; exact h2⟩
+  | binop bop a b =>
+    simp only [step, binop] at h
+    split at h
+    · cases h
+    rename_i oa hoa
+    split at h
+    · cases h
+    split at h
+    · split at h
+      · cases h
+      exact newOK_copyThenWrite hi (getObj_ok hoa) h
+    · split at h
+      · cases h
+      rename_i ob hob
+      split at h
+      · cases h
+      split at h
+      · cases h
+      rename_i osrc hsrc
+      split at h
+      · cases h
+      split at h
+      · cases h
+      rcases binopSrc_mem hsrc with rfl | rfl
+      · exact newOK_copyThenWrite hi (getObj_ok hoa) h
+      · exact newOK_copyThenWrite hi (getObj_ok hob) h
+  | inplace bop a b =>
+    obtain ⟨oa, g, _, rfl⟩ := inplace_eq' h
+    exact NewOK.none rfl
+  | storeFrame hd =>
+    simp only [step] at h
+    split at h
+    · cases h
+    cases h
+    exact newOK_allocObj s _ _ _ rfl (Or.inl rfl)
+  | loadFrame t f =>
+    simp only [step] at h
+    split at h
+    · cases h
+    · cases h
+    · rename_i ot fr hot hfr
+      split at h
+      · cases h
+      exact newOK_copyThenWrite hi (getObj_ok hot) h
+
+/-- **the invariant is preserved by every operation** -/
+theorem inv_step (G : List Grid) {s s' : State K} (hi : Inv G s) {op : Op K}
+    (h : step G s op = .ok s') : Inv G s' :=
+  inv_of_eff hi (step_spec G hi.wf h).1 (newOK_step G hi h)
 
 end
 
